@@ -83,9 +83,9 @@ func (g *Grammar) valid() error {
 		}
 		need := -1
 		switch n.Op {
-		case "rune", "urune", "unode", "unode2", "op", "empty", "int", "float", "str", "char", "bool", "nil", "word", "regexp", "dur", "end":
+		case "rune", "urune", "unode", "unode2", "upanic", "op", "empty", "int", "float", "str", "char", "bool", "nil", "word", "regexp", "dur", "end":
 			need = 0
-		case "opt", "many", "many1", "ltrim", "rtrim", "single", "suppress", "ref", "sentence", "memo", "fwrap":
+		case "opt", "many", "many1", "ltrim", "rtrim", "single", "suppress", "ref", "sentence", "memo", "fwrap", "guard":
 			need = 1
 		case "sepby", "sepby1":
 			need = 2
@@ -99,7 +99,7 @@ func (g *Grammar) valid() error {
 		if need >= 0 && len(n.Kids) != need {
 			return fmt.Errorf("node %d: %s needs %d kids", i, n.Op, need)
 		}
-		if (n.Op == "rune" || n.Op == "urune" || n.Op == "unode" || n.Op == "unode2" || n.Op == "op" || n.Op == "word") && n.Arg == "" {
+		if (n.Op == "rune" || n.Op == "urune" || n.Op == "unode" || n.Op == "unode2" || n.Op == "upanic" || n.Op == "op" || n.Op == "word") && n.Arg == "" {
 			return fmt.Errorf("node %d: empty literal", i)
 		}
 	}
@@ -188,6 +188,26 @@ func userRune(ch rune, endOnly bool) parsley.Parser {
 	})
 }
 
+// userBoom is the panic value of the deliberately panicking user leaf parser.
+type userBoom string
+
+// userPanicky matches ch; on the OTHER letter of the alphabet it panics (a third-party
+// parser with a bug on some inputs); anything else is a plain miss.
+func userPanicky(ch rune) parsley.Parser {
+	other := 'a' + 'b' - ch
+	nf := parsley.NotFoundError("panicky " + string(ch))
+	return parser.Func(func(ctx *parsley.Context, lrc data.IntMap, pos parsley.Pos) (parsley.Node, data.IntSet, parsley.Error) {
+		tr := ctx.Reader().(*text.Reader)
+		if rp, ok := tr.ReadRune(pos, ch); ok {
+			return ast.NewTerminalNode(nil, string(ch), ch, pos, rp), data.EmptyIntSet, nil
+		}
+		if _, ok := tr.ReadRune(pos, other); ok {
+			panic(userBoom(fmt.Sprintf("boom at %d", pos)))
+		}
+		return nil, data.EmptyIntSet, parsley.NewError(pos, nf)
+	})
+}
+
 // expectedOneOf is a user-defined error cause with a slice inside (not comparable).
 type expectedOneOf struct{ opts []string }
 
@@ -245,6 +265,23 @@ func build(g *Grammar, o *buildOpts) *built {
 			p = userRune([]rune(nd.Arg)[0], false)
 		case "unode2":
 			p = userRune([]rune(nd.Arg)[0], true)
+		case "upanic":
+			p = userPanicky([]rune(nd.Arg)[0])
+		case "guard":
+			// a user combinator that recovers from panics of its operand and reports them as an
+			// error (a per-rule guard around third-party parsers)
+			k := kid(nd, 0)
+			p = parser.Func(func(ctx *parsley.Context, lrc data.IntMap, pos parsley.Pos) (n parsley.Node, cp data.IntSet, err parsley.Error) {
+				defer func() {
+					if r := recover(); r != nil {
+						if _, ok := r.(userBoom); !ok {
+							panic(r)
+						}
+						n, cp, err = nil, data.EmptyIntSet, parsley.NewErrorf(pos, "recovered: %v", r)
+					}
+				}()
+				return k.Parse(ctx, lrc, pos)
+			})
 		case "fwrap":
 			// parser.FuncWrapper around the kid (pointer: works with value and pointer receivers)
 			k := kid(nd, 0)
@@ -410,7 +447,7 @@ func (m *refMemo) Parse(ctx *parsley.Context, lrc data.IntMap, pos parsley.Pos) 
 
 func isLeafOp(op string) bool {
 	switch op {
-	case "rune", "urune", "unode", "unode2", "op", "empty", "int", "float", "str", "char", "bool", "nil", "word", "regexp", "dur", "end":
+	case "rune", "urune", "unode", "unode2", "upanic", "op", "empty", "int", "float", "str", "char", "bool", "nil", "word", "regexp", "dur", "end":
 		return true
 	}
 	return false
@@ -446,7 +483,7 @@ func (g *Grammar) analyze() *analysis {
 				if nd.Op == "sentence" {
 					v = k(0)
 				}
-			case "seqtry", "seqfoa", "many1", "sepby1", "ltrim", "rtrim", "single", "suppress", "ref", "memo", "fwrap":
+			case "seqtry", "seqfoa", "many1", "sepby1", "ltrim", "rtrim", "single", "suppress", "ref", "memo", "fwrap", "guard":
 				v = k(0)
 			case "any", "choice":
 				for j := range nd.Kids {
@@ -552,6 +589,7 @@ func (g *Grammar) reachable() []bool {
 
 type genOpts struct {
 	MaxNodes   int
+	Guards     bool   // panicking user leaves and a user guard combinator that recovers from them
 	Alphabet   string // terminal characters
 	Trims      bool
 	LeftRec    bool // allow left-recursive cycles (through memoised targets only)
@@ -595,6 +633,12 @@ func (x *gen) leaf() int {
 		if x.o.User && r.Chance(1, 3) {
 			n.Op = "urune"
 		} else if r.Chance(1, 8) {
+			if x.o.Guards && r.Chance(1, 2) {
+				n.Op = "upanic" // a third-party leaf that panics on the other letter
+				n.Arg = string(r.Pick("ab"))
+				x.g.Nodes = append(x.g.Nodes, n)
+				return len(x.g.Nodes) - 1
+			}
 			n.Op = "unode" // a user-defined node type flows through the combinators
 			if r.Chance(1, 3) {
 				n.Op = "unode2"
@@ -640,6 +684,9 @@ func (x *gen) node(depth int) int {
 		ops := []string{"seq", "seq", "seq", "any", "any", "choice", "opt", "many", "many1", "sepby", "sepby1", "seqtry", "seqfoa", "single", "suppress", "fwrap"}
 		if r.Chance(1, 3) {
 			ops = append(ops, "memo") // another Memoize around the operand (which may be memoised itself)
+		}
+		if x.o.Guards {
+			ops = append(ops, "guard", "guard")
 		}
 		if x.o.Trims {
 			ops = append(ops, "ltrim", "rtrim", "rtrim")
@@ -745,7 +792,7 @@ func (g *Grammar) sample(r *Rand, i, depth int, sb *strings.Builder) {
 		}
 	}
 	switch nd.Op {
-	case "rune", "urune", "unode", "unode2", "op", "word":
+	case "rune", "urune", "unode", "unode2", "upanic", "op", "word":
 		sb.WriteString(nd.Arg)
 	case "int":
 		sb.WriteString([]string{"1", "42", "-7", "0x1f", "012"}[r.Intn(5)])
@@ -808,7 +855,7 @@ func (g *Grammar) sample(r *Rand, i, depth int, sb *strings.Builder) {
 	case "rtrim":
 		g.sample(r, nd.Kids[0], depth+1, sb)
 		ws(nd.Arg)
-	case "single", "suppress", "memo", "fwrap":
+	case "single", "suppress", "memo", "fwrap", "guard":
 		g.sample(r, nd.Kids[0], depth+1, sb)
 	case "ref":
 		if depth < 7 {
